@@ -951,10 +951,10 @@ func init() {
 	}
 	register(&Check{ID: "C14", Level: "model_checking",
 		Rule: "breadth-first search over histories of probe replies pushed through the REAL refresh goroutine (loopClusterNodes) and the real ticker: alphabet of 19 messages = 11 valid texts (base, failover with failed master, slot range moved, range split with migration markers, node added, replica removed, replica re-parented, replica disconnected, handshake/noaddr/failed extra nodes, new replicas whose INFO says loading / link down / dial error / ok, unclaimed range) + 8 unusable replies (nil bulk, two error replies, status, oversize > 163840, two usable nodes, 7-column lines, garbage text); depth 3 (thorough 4) with de-duplication on the canonical dump of the real refresh state; additionally ~100 generated single texts (one node line varied over 10 flag combinations x 2 link states x 5 slot-range shapes incl. migration markers and a master without slots, blank lines, missing cluster port, address without host) as histories [text], [base,text], [text,base]; an end-to-end family runs the whole path ticker -> probe -> reply -> channel -> real refresh goroutine -> ticker with client traffic (time advances only when the network is idle), including a table node that is unreachable for four rounds before the failover is reported, under every outcome of the probe-target choice afterwards (cross-execution oracle: some outcome adopts the new table); a barrier message makes 'all earlier replies processed' deterministic; oracle: after two ticker rounds of virtual time the slot->(master, replica set) map for ALL 16384 slots and the pool set/roles equal the reference built from the LAST VALID text, and the goroutine is still alive; states = distinct real refresh states reached; transitions = messages delivered",
-		Seq: c14Seq, Scenarios: c14E2EScenarios, BudgetQuick: 100, BudgetThorough: 1500,
+		Seq:  c14Seq, Scenarios: c14E2EScenarios, BudgetQuick: 100, BudgetThorough: 1500,
 		Assumptions: []string{"'within a few seconds' = within two ticker rounds of virtual time", "the INFO probe of newly discovered nodes is answered by a stub; the health monitor is not run", "memory-model races between the refresh goroutine and the loop are outside the technique (the barrier orders them)"}})
 	register(&Check{ID: "C18", Level: "model_checking",
 		Rule: "every history of 1..2 (thorough 1..3) successive whitelist file contents out of the 16 states {enable on/off} x subsets of {127.0.0.1,.2,.3}; each content is written to a scratch file and loaded through the real parseAuthIp exactly as the watcher does; then four clients (three listed candidates + one foreign address) connect through the real accept path and pipeline two requests; oracle: admitted set = set in the final file (everyone when disabled), rejected clients are closed with zero bytes and nothing of theirs reaches a backend; plus admission under every interleaving within the bound of an unlisted client whose request is already in its socket when it is accepted, next to a listed client; plus the real fsnotify watcher (LoopIPWhiteList on a scratch directory) driven through 7 edits, in place and by rename, with a 5 s convergence window; states = histories, transitions = file loads",
-		Seq: c18Seq, Scenarios: c18Scenarios, BudgetQuick: 100, BudgetThorough: 1500,
+		Seq:  c18Seq, Scenarios: c18Scenarios, BudgetQuick: 100, BudgetThorough: 1500,
 		Assumptions: []string{"histories call the reload function directly (deterministic); the fsnotify path is exercised by one fixed 7-edit sequence in real time"}})
 }
